@@ -14,6 +14,10 @@ code -> spec: harness/c08 runs seeded random histories (19 streams of all kinds/
               provider, 6 attribute sets, 50-200 steps, 1-3 callbacks with registration churn, reused /
               fresh ResourceMetrics, int64 / float64, default / view aggregations, tiny exponential
               MaxSize) on the same two readers.
+extensions  : wide exponential value domain (value = sign x 2^e over +-300 octaves, tiny MaxSize: the two readers
+              re-scale at different moments, every measurement ORDER explored); overlapping collections of one
+              reader (second goroutine collects while the first is held in a gate callback; TOver accepts either
+              serial order); deferred projection (collected data must not change after Collect returned).
 oracle      : in both directions the harness only executes and projects (attribute-set index, integer
               values in 1/unit, bucket counts, structural relations between the SDK's own timestamps);
               Trace_Temporality.tla evaluates every expectation: the model's points (absolute clauses) and
@@ -77,10 +81,37 @@ def stream(kind, agg, fl, maxsize=0, noview=False, ncb=0):
     cls = agg if agg in ("hist", "expo") else "plain"
     vals, bounds = ALPHA[(kind in SIGNED, fl, cls)]
     model = {"kind": kind, "agg": agg, "na": 2, "vals": vals, "unit": 4 if fl else 1, "bounds": bounds,
-             "ncb": ncb or (2 if kind in ASYNC else 1)}
+             "ncb": ncb or (2 if kind in ASYNC else 1), "wide": False, "exps": []}
     name = "%s.%s.%s%s%s%s" % (kind, agg, "f" if fl else "i", ".m%d" % maxsize if maxsize else "", ".nv" if noview else "",
                                ".cb%d" % ncb if ncb else "")
     return {"name": name, "model": model, "extra": {"name": "s." + name, "maxsize": maxsize, "noview": noview, "meter": 0}}
+
+
+def wide(kind, maxsize, values, tag):
+    """exponential histogram over a wide value range: values = [(sign, exponent)], one attribute set,
+    every ORDER of measurements explored (re-scaling and bucket memory depend on it)"""
+    model = {"kind": kind, "agg": "expo", "na": 1, "vals": [sg for sg, _ in values], "unit": 4, "bounds": [],
+             "ncb": 1, "wide": True, "exps": [e for _, e in values]}
+    name = "%s.expo.wide.m%d.%s" % (kind, maxsize, tag)
+    return {"name": name, "model": model, "extra": {"name": "s." + name, "maxsize": maxsize, "noview": False, "meter": 0}}
+
+
+def wide_configs(tier):
+    P, N = 1, -1
+    out = [
+        # fill three adjacent octaves, then jump: re-scale by two, land past a skipped bucket
+        wide("Histogram", 3, [(P, 1), (P, 2), (P, 3), (P, 9)], "fill-jump"),
+        # both sides of 1 (negative bucket indexes), both signs, zero
+        wide("Gauge", 4, [(P, -5), (P, -2), (P, -1), (P, 8), (N, 3)], "below-one"),
+        wide("ObsUpDownCounter", 3, [(P, -300), (P, 1), (N, 2), (P, 300)], "async"),
+    ]
+    if tier == "thorough":
+        out += [
+            wide("Histogram", 2, [(P, -3), (P, 1), (P, 2), (P, 6)], "two-buckets"),
+            wide("Histogram", 4, [(P, -7), (P, -6), (P, -4), (P, 5), (P, 12)], "below-one-4"),
+            wide("UpDownCounter", 160, [(P, 1), (P, 2), (P, 4), (P, 6), (N, 1)], "default-size"),
+        ]
+    return out
 
 
 def configs(tier, seed):
@@ -98,7 +129,7 @@ def configs(tier, seed):
                   stream("Gauge", "last", False, noview=True), stream("ObsGauge", "last", True, noview=True),
                   stream("UpDownCounter", "sum", True, noview=True), stream("ObsUpDownCounter", "sum", False, noview=True),
                   stream("ObsCounter", "sum", False, ncb=3), stream("ObsGauge", "last", True, ncb=3)]
-    return out + extra
+    return out + extra + wide_configs(tier)
 
 
 def plan(c, tier):
@@ -109,6 +140,9 @@ def plan(c, tier):
               float64 histograms keep 3 points in full); asynchronous: 3 points, every second edge."""
     m = c["model"]
     is_async, fl, bags = m["kind"] in ASYNC, m["unit"] != 1, m["agg"] in ("hist", "expo")
+    if m["wide"]:  # every operation sequence is a state: (1 + n + n^2)^3 collection edges for n values
+        big = len(m["vals"]) > 4 and not is_async
+        return 3, 2, ((2 if big else 1) if tier == "thorough" else (8 if big else 3))
     if tier != "thorough":
         return 3, 2, (12 if is_async else 3 if bags else 1)
     if is_async:
@@ -124,6 +158,7 @@ def sig_of(direction, new, v):
     meta = new.get("meta", {})
     return {"dir": direction, "kind": C["kind"], "agg": C["agg"], "num": "float" if C["unit"] != 1 else "int",
             "async": C["kind"] in ASYNC, "nosum_kind": C["kind"] in SIGNED, "reuse": bool(meta.get("reuse")),
+            "wide": bool(C.get("wide")), "overlapped": v.get("over", "no"),
             "rd": v.get("rd"), "clause": v.get("clause")}
 
 
@@ -150,6 +185,9 @@ def run(ctx):
     binp = ctx.go_build("c08")
     counters = ctx.extra.setdefault("counters", {})
     par = max(2, min(6, (os.cpu_count() or 4) // 3))
+    if os.environ.get("VERIF_TLC_WORKERS"):
+        par = max(1, min(par, int(os.environ["VERIF_TLC_WORKERS"])))
+    overlap = 120 if thorough else 24  # overlapping collections per configuration (each waits ~15 ms)
 
     def add_counters(res, prefix):
         for k, v in res["counters"].items():
@@ -180,7 +218,7 @@ def run(ctx):
         resf = os.path.join(ctx.work, "replay-%s.json" % c["name"])
         hcfg = dict(c["model"], **c["extra"])
         ctx.run([binp, "replay", "-edges", r["edges_file"], "-cfg", json.dumps(hcfg), "-out", trace, "-res", resf,
-                 "-sample", str(k)], timeout=2400)
+                 "-sample", str(k), "-overlap", str(overlap)], timeout=2400)
         r["want_executed"] = sum(1 for e in range(1, (r.get("edges") or 0) + 1) if k <= 1 or (e + ctx.seed) % k == 0)
         os.remove(r["edges_file"])  # (tlc.out of the run keeps the EDGE lines)
         return c, r, trace, json.load(open(resf)), cov
@@ -270,7 +308,10 @@ def run(ctx):
             "replay_delta_start_eq_previous_time", "replay_delta_start_after_gap", "replay_expo_negative_scale_points",
             "random_delta_points", "random_cum_only_points", "random_set_reappears_after_gap", "random_register",
             "random_unregister", "random_delta_start_eq_previous_time", "random_delta_start_after_gap",
-            "random_expo_negative_scale_points"]
+            "random_expo_negative_scale_points", "replay_overlapped_pairs", "random_overlapped_pairs",
+            "replay_deferred_projections", "replay_wide_cumulative_rescaled_between_cycles",
+            "replay_wide_delta_and_cumulative_at_different_scales", "random_wide_bursts",
+            "random_wide_cumulative_rescaled_between_cycles"]
     for k in need:
         if not counters.get(k):
             ctx.note_inconclusive("vacuity: counter %s is zero" % k)
